@@ -560,15 +560,21 @@ class SequenceEncoder(AbstractItemEncoder):
                 yield value[idx]
 
     @staticmethod
-    def _isDefaultValue(component, namedType):
+    def _isDefaultValue(component, namedType, encodeFun, options):
         # A bare Python value is compared the way the component type reads
         # it: None (NULL), dotted text (OBJECT IDENTIFIER) or octets
         # (character strings) never equal the DEFAULT value object as they are
         default = namedType.asn1Object
 
-        if (isinstance(default, base.SimpleAsn1Type) and
-                not isinstance(component, base.Asn1Item)):
-            component = default.clone(component)
+        if not isinstance(component, base.Asn1Item):
+            if isinstance(default, base.SimpleAsn1Type):
+                component = default.clone(component)
+
+            else:
+                # a mapping or a list standing for a value of a constructed
+                # type is the DEFAULT if it encodes the way the DEFAULT does
+                return (encodeFun(component, default, **options) ==
+                        encodeFun(default, **options))
 
         return component == default
 
@@ -657,7 +663,8 @@ class SequenceEncoder(AbstractItemEncoder):
                     raise error.PyAsn1Error('Component name "%s" not found in %r' % (
                         namedType.name, value))
 
-                if namedType.isDefaulted and self._isDefaultValue(component, namedType):
+                if namedType.isDefaulted and self._isDefaultValue(
+                        component, namedType, encodeFun, options):
                     if LOG:
                         LOG('not encoding DEFAULT component %r' % (namedType,))
                     continue
